@@ -66,7 +66,15 @@ func (f *failoverStatus) report(ctx context.Context, witness string) *status.Sta
 			f.timer.Stop()
 		}
 		f.mu.Unlock()
-		return f.failover.Failover(ctx)
+		st := f.failover.Failover(ctx)
+		if st == nil {
+			// The failover completed, so these witnesses no longer count
+			// against whoever takes over.
+			f.mu.Lock()
+			f.witnesses = make(map[string]struct{})
+			f.mu.Unlock()
+		}
+		return st
 	}
 
 	if f.timer != nil {
